@@ -76,9 +76,10 @@ theorem basecase_val (a : List Nat) (un0 : Nat) (v0 : Nat) (vs : List Nat) (ha :
   simp only [val_append, val_cons, val_nil, rn, mpW]
   linear_combination rv + mv
 
-/-- the specification of mpn_toom42_mulmid (toom42_mulmid.c header): {rp, n+2} = MP({ap, 2n-1}, {bp, n}) -/
-def TmSpec (tm : List Nat → List Nat → Nat → List Nat) : Prop :=
-  ∀ (a b : List Nat) (n : Nat), Limbs a → Limbs b → b.length = n → 1 ≤ n → n ≤ B → 2 * n - 1 ≤ a.length →
+/-- the specification of mpn_toom42_mulmid (toom42_mulmid.c header): {rp, n+2} = MP({ap, 2n-1}, {bp, n}), for the sizes n ≥ T =
+    MULMID_TOOM42_THRESHOLD at which mulmid_n.c / mulmid.c call it -/
+def TmSpec (T : Nat) (tm : List Nat → List Nat → Nat → List Nat) : Prop :=
+  ∀ (a b : List Nat) (n : Nat), Limbs a → Limbs b → b.length = n → 1 ≤ n → T ≤ n → n ≤ B → 2 * n - 1 ≤ a.length →
     val (tm a b n) = mpW n a b ∧ Limbs (tm a b n) ∧ (tm a b n).length = n + 2
 
 /-! ### the specification: splitting and bound -/
@@ -444,13 +445,13 @@ theorem hregion (f : List Nat → List Nat) (g : List Nat → Nat → List Nat) 
 
 /-! ### mpn_mulmid -/
 
-theorem mulmid_isMP (T : Nat) (tm : List Nat → List Nat → Nat → List Nat) (htm : TmSpec tm) :
+theorem mulmid_isMP (T : Nat) (tm : List Nat → List Nat → Nat → List Nat) (htm : TmSpec T tm) :
     ∀ (fuel : Nat) (a : List Nat) (an : Nat) (b : List Nat), Limbs a → Limbs b → 1 ≤ b.length → b.length ≤ an →
       an ≤ a.length → b.length < B → an ≤ fuel → IsMP (mulmid T tm fuel a an b) (an - b.length + 1) a b
   | 0, a, an, b, _, _, h1, h2, _, _, h5 => by omega
   | fuel + 1, a, an, b, ha, hb, hbn, hban, hal, hB, hfuel => by
     have ih := mulmid_isMP T tm htm fuel
-    have htm' : ∀ (a' bc : List Nat) (n : Nat), Limbs a' → Limbs bc → bc.length = n → 1 ≤ n → n ≤ B → 2 * n - 1 ≤ a'.length →
+    have htm' : ∀ (a' bc : List Nat) (n : Nat), Limbs a' → Limbs bc → bc.length = n → 1 ≤ n → T ≤ n → n ≤ B → 2 * n - 1 ≤ a'.length →
         IsMP (tm a' bc n) n a' bc := htm
     rw [mulmid]
     dsimp only
@@ -506,7 +507,7 @@ theorem mulmid_isMP (T : Nat) (tm : List Nat → List Nat → Nat → List Nat) 
           exact vregion (fun a' bc => tm a' bc (an - b.length + 1))
             (fun a' n lo => mulmid T tm fuel a' ((an - b.length + 1) + n - 1) lo) (an - b.length + 1) (an - b.length + 1) a b ha hb
             (by omega) (by omega) (by omega) (by omega)
-            (fun a' bc ha' hbc hl h => htm' a' bc _ ha' hbc hl (by omega) (by omega) (by omega))
+            (fun a' bc ha' hbc hl h => htm' a' bc _ ha' hbc hl (by omega) (by omega) (by omega) (by omega))
             (fun a' lo ha' hlo h1 h2 h3 h4 => by
               have := ih a' ((an - b.length + 1) + lo.length - 1) lo ha' hlo (by omega) (by omega) (by omega) (by omega) (by omega)
               have e : an - b.length + 1 + lo.length - 1 - lo.length + 1 = an - b.length + 1 := by omega
@@ -516,7 +517,7 @@ theorem mulmid_isMP (T : Nat) (tm : List Nat → List Nat → Nat → List Nat) 
           obtain ⟨r1, r2, r3⟩ := hregion (fun a' => tm a' b b.length)
             (fun a' x' => mulmid T tm fuel a' (x' + b.length - 1) b) b.length 0 (an - b.length + 1) a b ha hb hbn hB (by omega)
             (by omega) (by omega)
-            (fun a' ha' hl => htm' a' b _ ha' hb rfl hbn (by omega) (by omega))
+            (fun a' ha' hl => htm' a' b _ ha' hb rfl hbn (by omega) (by omega) (by omega))
             (fun a' x' ha' h1 h2 h3 h4 => by
               have := ih a' (x' + b.length - 1) b ha' hb hbn (by omega) (by omega) hB (by omega)
               have e : x' + b.length - 1 - b.length + 1 = x' - 0 := by omega
@@ -538,8 +539,8 @@ theorem toLimbs_spec : ∀ (n v : Nat), val (toLimbs n v) = v % B ^ n ∧ Limbs 
     simp only [toLimbs, val_cons, h1, pow_succ]
     rw [Nat.mul_comm (B ^ n) B, Nat.mod_mul, Nat.add_comm]
 
-theorem tmSpec_ok : TmSpec tmSpec := by
-  intro a b n ha hb hbl hn hnB hal
+theorem tmSpec_ok (T : Nat) : TmSpec T tmSpec := by
+  intro a b n ha hb hbl hn _ hnB hal
   obtain ⟨h1, h2, h3⟩ := toLimbs_spec (n + 2) (mpW n a b)
   refine ⟨?_, h2, h3⟩
   rw [tmSpec, h1]
